@@ -2195,6 +2195,88 @@ v("C20", "header-accessor-keeps-receiving", "inprocgrpc/in_process.go",
 				s.state = streamStateMessages
 				s.headers = m.headers""", "R6", "leaves-the-receiving-state", "Header() stays in the header-waiting state when it sets a non-header frame aside")
 
+v("C11", "server-payload-eof-raw", "httpgrpc/server.go",
+  """	if err == io.EOF {
+		return io.ErrUnexpectedEOF
+	} else if err != nil {
+		return err
+	}
+
+	if !s.respStream {""", """	if err != nil {
+		return err
+	}
+
+	if !s.respStream {""", "R5", "payload-eof", "a streaming request truncated inside a message reaches the handler as a clean end of the request stream")
+v("C11", "timeout-unit-array", "httpgrpc/server.go",
+  """		suffix := timeout[len(timeout)-1]""", """		suffix := timeout[len(timeout)-1]
+		_ = [...]int{'u': 1}[suffix]""", "R9", "contextFromHeaders", "a fixed array indexed by the unit byte: bytes above 'u' panic inside the handler")
+v("C12", "lookup-cache-shared-by-both-kinds", "inprocgrpc/in_process.go", None, None, "R1", "unchecked", "a per-channel lookup cache shared by unary and streaming entries, values asserted unchecked", patch="seeded/C12-w3-m1/patch.diff", edits=[
+    {"file": "inprocgrpc/in_process.go", "old": "var clientContextKey = \"holds a client context\"", "new": "var clientContextKey = \"holds a client context\" // unchanged"},
+])
+v("C15", "registry-lock-not-deferred", "httpgrpc/server.go", None, None, "R4", "released-if-callee-panics", "the registration is bracketed by Lock/Unlock without defer: a refusal (panic) leaves the mutex locked", edits=[
+    {"file": "httpgrpc/server.go", "old": "	s.handlers.RegisterService(desc, svr)", "new": "	regMu.Lock()\n	s.handlers.RegisterService(desc, svr)\n	regMu.Unlock()"},
+    {"file": "httpgrpc/server.go", "old": "func (s *Server) RegisterService(", "new": "var regMu sync.Mutex\n\nfunc (s *Server) RegisterService("},
+])
+silent_all("registry-lock-deferred", [
+    {"file": "httpgrpc/server.go", "old": "	s.handlers.RegisterService(desc, svr)", "new": "	regMu.Lock()\n	defer regMu.Unlock()\n	s.handlers.RegisterService(desc, svr)"},
+    {"file": "httpgrpc/server.go", "old": "func (s *Server) RegisterService(", "new": "var regMu sync.Mutex\n\nfunc (s *Server) RegisterService("},
+], "the registration under a package mutex released by defer", ["C15", "C05", "C12", "C11"])
+v("C09", "metadata-assigned-after-timeout", "httpgrpc/client.go", None, None, "R1", "transport-timeout-wins", "the timeout is stored first and the metadata converter assigns whole value slices afterwards", edits=[
+    {"file": "httpgrpc/client.go", "old": """	h := http.Header{}
+	if md, ok := metadata.FromOutgoingContext(ctx); ok {
+		toHeaders(md, h, "")
+	}
+	if deadline, ok := ctx.Deadline(); ok {
+		timeout := time.Until(deadline)
+		millis := int64(timeout / time.Millisecond)
+		if millis <= 0 {
+			millis = 1
+		}
+		h.Set("GRPC-Timeout", fmt.Sprintf("%dm", millis))
+	}
+	return h""", "new": """	h := http.Header{}
+	if deadline, ok := ctx.Deadline(); ok {
+		timeout := time.Until(deadline)
+		millis := int64(timeout / time.Millisecond)
+		if millis <= 0 {
+			millis = 1
+		}
+		h.Set("GRPC-Timeout", fmt.Sprintf("%dm", millis))
+	}
+	if md, ok := metadata.FromOutgoingContext(ctx); ok {
+		toHeaders(md, h, "")
+	}
+	return h"""},
+    {"file": "httpgrpc/io.go", "old": "			h.Add(prefix+k, v)", "new": "			h[http.CanonicalHeaderKey(prefix+k)] = append([]string(nil), v)"},
+])
+silent_all("metadata-appended-after-timeout", [
+    {"file": "httpgrpc/client.go", "old": """	h := http.Header{}
+	if md, ok := metadata.FromOutgoingContext(ctx); ok {
+		toHeaders(md, h, "")
+	}
+	if deadline, ok := ctx.Deadline(); ok {
+		timeout := time.Until(deadline)
+		millis := int64(timeout / time.Millisecond)
+		if millis <= 0 {
+			millis = 1
+		}
+		h.Set("GRPC-Timeout", fmt.Sprintf("%dm", millis))
+	}
+	return h""", "new": """	h := http.Header{}
+	if deadline, ok := ctx.Deadline(); ok {
+		timeout := time.Until(deadline)
+		millis := int64(timeout / time.Millisecond)
+		if millis <= 0 {
+			millis = 1
+		}
+		h.Set("GRPC-Timeout", fmt.Sprintf("%dm", millis))
+	}
+	if md, ok := metadata.FromOutgoingContext(ctx); ok {
+		toHeaders(md, h, "")
+	}
+	return h"""},
+], "the timeout stored first, the metadata appended (Header.Add) afterwards: the server reads the first value", ["C09", "C03", "C04", "C13"])
+
 # ------------------------------------------------------------------ wave-2 rules (C15-C20)
 v("C15", "methods-scratch-slice-reused", "server.go",
   """	for _, svc := range m {
